@@ -17,7 +17,7 @@ def _mc(ctx, quick):
     cfg = os.path.join(ctx.scratch, 'zmvcc.cfg')
     tlc.write_cfg(cfg, constants={'Conn': '{"c1", "c2"}', 'Oid': '{"x", "y"}', 'MaxCommits': 3 if quick else 4,
                                   'MaxCloses': 2, 'MutIgnoreILtid': 'FALSE', 'UndoAgents': '{}', 'WithRC': 'FALSE'},
-                  invariants=['CacheCoherent', 'Fresh', 'NotFromTheFuture', 'VotedOnCurrent', 'LockDiscipline'])
+                  invariants=['CacheCoherent', 'Fresh', 'NotFromTheFuture', 'VotedOnCurrent', 'LockDiscipline'], next_='NextVA')
     ctx.model_check('ZMvcc', cfg, name='ZMvcc-2conn', timeout=1800)
     cfgu = os.path.join(ctx.scratch, 'zmvcc-undo.cfg')
     tlc.write_cfg(cfgu, constants={'Conn': '{"c1", "c2", "u"}', 'Oid': '{"x", "y"}', 'MaxCommits': 2 if quick else 3,
@@ -47,8 +47,47 @@ def run(ctx):
         nth = 2 if i % 5 else 3
         progs = mvcc.gen_programs(rng, nthreads=nth, length=4)
         jobs.append((kind, progs, ctx.seed * 1000003 + i, os.path.join(ctx.scratch, 'mv-%d' % i),
-                     {'stick': (0.3, 0.6, 0.85)[i % 3], 'yield_io': i % 4 == 0}))
-    res = par.pmap(mvcc.scenario, jobs, chunksize=8)
+                     {'stick': (0.3, 0.6, 0.85)[i % 3], 'yield_io': i % 4 == 0, 'pad': (0, 6000)[(i // 4) % 2]}))
+    # systematic preemption sweeps (sched.Plan) over directed programs: one thread is stopped after its k-th yield
+    # point (two-level: t1 after k1, then t2 after k2) while the rest runs to completion - a reader inside a load
+    # across a vote / abort / finish of the other connection, a boundary inside every window of a finish or an undo
+    DIRECTED = [
+        [['va', 'wx'], ['rx', 'rx', 'r']],          # voted-then-aborted commit, then a commit at the same place; reader
+        [['wx', 'wy'], ['r', 'r']],                 # boundaries of the reader inside the other's finish
+        [['u1'], ['rx', 'r']],                      # (after an initial commit by the same thread) undo vs cached reader
+        [['rw', 'u1'], ['r', 'mr']],
+        [['cx'], ['wx', 'r']],                      # readCurrent dependency vs a commit
+        [['wa', 'wx'], ['r', 'co', 'r']],           # pooled connection reused across the other's commit
+    ]
+    pjobs = []
+    for pi, progs in enumerate(DIRECTED):
+        for kind in ('file', 'mapping'):
+            if kind == 'mapping' and any(op in ('u1', 'u2') for p in progs for op in p):
+                continue
+            yio = kind == 'file' and pi in (0, 5)
+            names = ['t%d' % (i + 1) for i in range(len(progs))]
+            # (how many yield points a thread passes depends on what it finds cached: calibrate in both orders)
+            y = {}
+            for order in (names, names[::-1]):
+                cal = mvcc.scenario((kind, progs, 0, os.path.join(ctx.scratch, 'mvcal'), {'plan': [], 'order': order, 'yield_io': yio, 'pad': 6000 if yio else 0}))
+                for n_, v in cal['yields'].items():
+                    y[n_] = max(y.get(n_, 0), v + 8)
+            cap1, cap2 = ((64, 28) if pi == 0 else (24, 8)) if q else (200, 60)
+
+            def pick(n, cap):
+                ks = list(range(1, n + 2))
+                return ks if len(ks) <= cap else sorted({1 + (i * n) // (cap - 1) for i in range(cap)})
+            for victim in names:
+                other = [n_ for n_ in names if n_ != victim][0]
+                for k in pick(y.get(victim, 0), cap1):
+                    pjobs.append((kind, progs, 0, os.path.join(ctx.scratch, 'mvp-%d' % len(pjobs)),
+                                  {'plan': [(victim, k)], 'order': [other, victim], 'yield_io': yio, 'pad': 6000 if yio else 0}))
+            # two-level: t1 stopped after k1 yields, t2 after k2, then t1 to its end, then t2
+            for k1 in pick(y.get('t1', 0), cap1):
+                for k2 in pick(y.get('t2', 0), cap2):
+                    pjobs.append((kind, progs, 0, os.path.join(ctx.scratch, 'mvp-%d' % len(pjobs)),
+                                  {'plan': [('t1', k1), ('t2', k2)], 'order': ['t1', 't2'], 'yield_io': yio, 'pad': 6000 if yio else 0}))
+    res = par.pmap(mvcc.scenario, jobs + pjobs, chunksize=8)
     # spec -> code: TLC behaviours of ZMvcc as directed schedules
     from ..drivers import mvcc_directed
     from .. import tlaparse
@@ -71,8 +110,18 @@ def run(ctx):
                 'fully_followed': sum(1 for r in dres if r['matched'] == r['expected'])}
     res += dres
     traces = [r['trace'] for r in res]
-    accepted, rejected, tr = tlc.validate_traces('ZMvccTrace', traces, os.path.join(ctx.scratch, 'tv'), constants=CONSTS,
-                                                 timeout=1800)
+    # (many systematic schedules record the same trace: TLC validates each distinct trace once)
+    import json
+    keyed = [json.dumps(t, sort_keys=True) for t in traces]
+    first_of = {}
+    for i, k in enumerate(keyed):
+        first_of.setdefault(k, i)
+    uniq_idx = sorted(first_of.values())
+    acc_u, rej_u, tr = tlc.validate_traces('ZMvccTrace', [traces[i] for i in uniq_idx], os.path.join(ctx.scratch, 'tv'), constants=CONSTS,
+                                           timeout=1800)
+    rej_first = {uniq_idx[j]: k for j, k in rej_u.items()}
+    rejected = {i: rej_first[first_of[k]] for i, k in enumerate(keyed) if first_of[k] in rej_first}
+    accepted = {i for i in range(len(traces)) if i not in rejected}
     ctx.add_tlc('ZMvccTrace-validation', tr)
     nontrivial = 0
     distinct = set()
@@ -98,6 +147,7 @@ def run(ctx):
                           replay={'kind': r['kind'], 'programs': r['programs'], 'seed': r['seed'], 'index': k})
     return ctx.finish({
         'evaluations': len(res),
+        'systematic_preemption_runs': len(pjobs), 'distinct_traces_validated': len(uniq_idx),
         'distinct_nontrivial': min(nontrivial, len(distinct)),
         'distinct_traces': len(distinct),
         'directed_schedules': directed,
